@@ -102,7 +102,9 @@ PROPS["C08"]["props"] = ["Props/C08.v"]
 PROPS["C09"]["props"] = ["Props/C09.v", "Props/C09c.v"]
 PROPS["C10"]["props"] = ["Props/C10.v", "Props/C10c.v"]
 PROPS["C12"]["props"] = ["Props/C12.v"]
-PROPS["C15"]["props"] = ["Props/C15.v", "Props/C15a.v"]
+PROPS["C15"]["props"] = ["Props/C15.v", "Props/C15a.v", "Props/C15c.v"]
+PROPS["C15"]["run"] = ["Run/EnumRun.v", "Run/LexRun.v"]
+PROPS["C15"]["tables"] = ["T1", "T2", "T3", "T4", "T5"]
 
 TB_FOLD = TB_COMMON + [
     "hand-written control skeleton of the fold model (Model/Fold.v: evaluation order, short-circuiting, number ladders, image placeholder search) tied by the correspondence check; the ordered arm tables of fold_atom / fold_compound / fold_set / fold_statement, the empty-name guard and the verbatim shapes of the TryFoldInto impls, try_from_floats, new_*, to_image_*_with_placeholder and the Stamp / Punctuation side doors are regenerated / re-recognised on every run (T3f); lexical vocabulary lists (T2v)",
